@@ -10,8 +10,10 @@
 // `var x T`, if/else blocks that only assign outer variables (-> `let x := if c then .. else ..`),
 // `if c { return e }` chains, `switch {case c: ..}` / `switch x {case a, b: ..}` (= if/else-if chains),
 // `return e`, `return e1, e2`, named results, `return func(..) .. {..}` (closures).
-// Loops (coq/Num/Loop.v): `for _, x := range xs {..}` -> fold_left, `for i := range xs` / `for i, x := range xs`
-// -> range_loop, `for i := 0; i < n; i++` -> count_loop, nested, with `continue` (also `if c {..; continue}`)
+// Loops (coq/Num/Loop.v): `for _, x := range xs {..}`, `for i := range xs`, `for i, x := range xs` and
+// `for i := 0; i < len(xs); i++` (also through `n := len(xs)`) -> range_loop over xs (one normal form: the body may
+// use the index, the element or xs[i]), `for i := a; i < n; i++` (`n > i`, `i += 1`) and `for i := range n`
+// -> count_loop, nested, with `continue` (also `if c {..; continue}`)
 // at the top level of the body; the loop state is the tuple of the variables of the enclosing scopes
 // the body assigns (locals, fields s.f of a struct under construction, slices written by index);
 // `xs[i] = e` -> list_set, `xs[i]` -> nth, `append(xs, e..)` -> ++, `make([]T, n)` -> repeat zero n,
@@ -37,10 +39,12 @@ package sdfgen
 import (
 	"fmt"
 	"go/ast"
+	"go/build"
 	"go/parser"
 	"go/token"
 	"math"
 	"math/big"
+	"os"
 	"path/filepath"
 	"sort"
 	"strconv"
@@ -154,6 +158,7 @@ type typ struct {
 	args  []typ
 	ret   *typ
 	iface bool // an SDF2/SDF3 interface value: Evaluate is the function, BoundingBox travels beside it
+	n     int  // kList: the length of a fixed-size array [n]T (a value: copied when assigned); 0 for a slice
 }
 
 var (
@@ -176,6 +181,7 @@ var (
 
 func fnType(ret typ, args ...typ) typ { return typ{k: kFn, args: args, ret: &ret} }
 func listType(el typ) typ             { return typ{k: kList, args: []typ{el}} }
+func arrayType(el typ, n int) typ     { return typ{k: kList, args: []typ{el}, n: n} }
 func ifaceType(pt typ) typ            { t := fnType(tT, pt); t.iface = true; return t }
 func objOptType(pt typ) typ           { return typ{k: kObjOpt, args: []typ{pt}} }
 
@@ -275,6 +281,13 @@ func (t typ) zero() (string, bool) {
 	case kV3i:
 		return "(0%Z, 0%Z, 0%Z)", true
 	case kList:
+		if t.n > 0 {
+			z, ok := t.args[0].zero()
+			if !ok {
+				return "", false
+			}
+			return fmt.Sprintf("(repeat %s %d)", z, t.n), true
+		}
 		return "[]", true
 	case kFn:
 		if t.iface {
@@ -319,6 +332,9 @@ func (t typ) goName() string {
 	case kLine2:
 		return "Line2"
 	case kList:
+		if t.n > 0 {
+			return fmt.Sprintf("[%d]%s", t.n, t.args[0].goName())
+		}
 		return "[]" + t.args[0].goName()
 	case kTuple:
 		var ps []string
@@ -336,7 +352,7 @@ func (t typ) goName() string {
 }
 
 func (t typ) eq(u typ) bool {
-	if t.k != u.k || len(t.args) != len(u.args) {
+	if t.k != u.k || len(t.args) != len(u.args) || t.n != u.n {
 		return false
 	}
 	for i := range t.args {
@@ -388,14 +404,56 @@ func recvTypeName(fd *ast.FuncDecl) (string, bool) {
 	return "?", ptr
 }
 
-func loadPkg(fset *token.FileSet, repo, name, path string, rels ...string) (*pkg, error) {
+// GoFiles lists the non-test .go files of a package directory that the build of the harness
+// compiles (build constraints evaluated with the tag `verif`, as `go build -tags verif` does),
+// sorted by name.  The translators read the WHOLE package, never a fixed list of files: a
+// declaration may move to any file of its package.
+func GoFiles(dir string) ([]string, error) {
+	ents, err := os.ReadDir(dir)
+	if err != nil {
+		return nil, err
+	}
+	ctx := build.Default
+	ctx.GOOS, ctx.GOARCH, ctx.CgoEnabled = "linux", "amd64", false
+	ctx.BuildTags = []string{"verif"}
+	var names []string
+	for _, e := range ents {
+		n := e.Name()
+		if e.IsDir() || !strings.HasSuffix(n, ".go") || strings.HasSuffix(n, "_test.go") {
+			continue
+		}
+		ok, err := ctx.MatchFile(dir, n)
+		if err != nil {
+			return nil, err
+		}
+		if ok {
+			names = append(names, n)
+		}
+	}
+	sort.Strings(names)
+	if len(names) == 0 {
+		return nil, fmt.Errorf("no Go files in %s", dir)
+	}
+	return names, nil
+}
+
+// loadPkg parses every file of the package directory repo/reldir.
+func loadPkg(fset *token.FileSet, repo, name, path, reldir string) (*pkg, error) {
 	p := &pkg{name: name, path: path, funcs: map[string]*ast.FuncDecl{}, fileOf: map[string]*srcFile{},
 		structs: map[string]*ast.StructType{}, ftypes: map[string]*ast.FuncType{}, atypes: map[string]*ast.ArrayType{},
 		ifaces: map[string]bool{}, consts: map[string]ast.Expr{}}
-	for _, rel := range rels {
-		f, err := parser.ParseFile(fset, filepath.Join(repo, rel), nil, 0)
+	names, err := GoFiles(filepath.Join(repo, reldir))
+	if err != nil {
+		return nil, err
+	}
+	for _, fn := range names {
+		rel := filepath.ToSlash(filepath.Join(reldir, fn))
+		f, err := parser.ParseFile(fset, filepath.Join(repo, reldir, fn), nil, 0)
 		if err != nil {
 			return nil, err
+		}
+		if f.Name.Name != name {
+			return nil, fmt.Errorf("%s: package %s, expected %s", rel, f.Name.Name, name)
 		}
 		sf := &srcFile{ast: f, rel: rel, imports: map[string]string{}}
 		for _, im := range f.Imports {
@@ -413,7 +471,12 @@ func loadPkg(fset *token.FileSet, repo, name, path string, rels ...string) (*pkg
 				key := x.Name.Name
 				if x.Recv != nil {
 					rn, _ := recvTypeName(x)
+					if rn == "?" {
+						continue // a receiver that is not a plain (pointer to a) named type: never a target
+					}
 					key = rn + "." + key
+				} else if key == "init" || key == "_" {
+					continue // may be declared any number of times; never a target
 				}
 				if _, dup := p.funcs[key]; dup {
 					return nil, fmt.Errorf("%s: duplicate declaration of %s", rel, key)
@@ -471,6 +534,10 @@ type Def struct {
 	isConst  bool
 	rat      *big.Rat // a constant: its exact value when known
 	mutates  []int    // a procedure writing into slice parameters: their indices; the definition returns their final values
+	// a function (not a method) with one parameter of a struct type of the package: that parameter is treated as
+	// a receiver (the fields it uses are the leading parameters); its position among the Go arguments, else -1
+	structArg  int
+	recvStruct string
 }
 
 type Param struct{ Name, Type string }
@@ -500,6 +567,9 @@ func init() {
 		reserved[w] = true
 	}
 }
+
+// CoqIdent is the Gallina name of a Go local variable (harness/exprgen uses the same renaming).
+func CoqIdent(name string) string { return coqIdent(name) }
 
 func coqIdent(name string) string {
 	if reserved[name] || strings.Contains(name, "_") {
@@ -625,12 +695,16 @@ func ratCoq(r *big.Rat) (string, error) {
 // ---------------------------------------------------------------- function context
 
 type binding struct {
-	coq   string
-	t     typ
-	zero  bool   // declared with `var x float64`, not assigned yet
-	bb    string // an SDF value: the Gallina name of its bounding box
-	capt  bool   // a variable of the enclosing function seen from inside a closure: read-only
-	fresh bool   // a slice nothing else refers to (so xs[i] = e is an update of this variable only)
+	coq  string
+	t    typ
+	zero bool   // declared with `var x float64`, not assigned yet
+	bb   string // an SDF value: the Gallina name of its bounding box
+	capt bool   // a variable of the enclosing function seen from inside a closure: read-only
+	kval *val   // a function-local constant (`const k = e`): its value is used in place of the name
+	// n := len(xs): the slice whose length this int holds (and the Go text of xs), see lenOperand
+	lenOf  *val
+	lenSrc string
+	fresh  bool // a slice nothing else refers to (so xs[i] = e is an update of this variable only)
 	// the receiver of a mutator method: a field that has not been assigned is not known (no zero value)
 	mutated bool
 	// a struct under construction (`s := T{}`): the current value of each field
@@ -668,6 +742,10 @@ type fctx struct {
 	named        []string       // named results of the function
 	mutator      string         // the receiver name of a mutator method
 	structResult string         // the function returns (a pointer to) this struct: a tuple of its fields
+	ntmp         int            // temporaries introduced by desugar
+	body         *ast.BlockStmt // the body of the function being translated
+	skipParam    int            // the struct parameter treated as the receiver (index among the parameter names), else -1
+	skipList     *ast.FieldList
 }
 
 type val struct {
@@ -719,12 +797,18 @@ func (g *gen) goType(p *pkg, sf *srcFile, e ast.Expr) (typ, error) {
 			return t, nil
 		}
 	case *ast.ArrayType:
+		el, err := g.goType(p, sf, x.Elt)
+		if err != nil {
+			return typ{}, err
+		}
 		if x.Len == nil {
-			el, err := g.goType(p, sf, x.Elt)
-			if err != nil {
-				return typ{}, err
-			}
 			return listType(el), nil
+		}
+		// [4]T: a list of known length (arrays are values: every use is a copy)
+		if lit, ok := x.Len.(*ast.BasicLit); ok && lit.Kind == token.INT {
+			if n, err := strconv.Atoi(lit.Value); err == nil && n > 0 && n <= 64 {
+				return arrayType(el, n), nil
+			}
 		}
 	case *ast.Ellipsis:
 		// a variadic parameter is a slice
@@ -1152,6 +1236,38 @@ func (f *fctx) callDef(n ast.Node, q *pkg, key string, recv *val, as []ast.Expr,
 	if err != nil {
 		return val{}, err
 	}
+	if d.structArg >= 0 {
+		// helper(s, ..) where helper takes the struct as a parameter: s must be the receiver (or the struct
+		// parameter) of the caller; the fields helper uses are passed in its place
+		if recv != nil || q != f.p || f.recvStruct != d.recvStruct || d.structArg >= len(as) {
+			return val{}, f.errf(n, "call of %s, a function of a %s, outside a method of that struct", key, d.recvStruct)
+		}
+		sa := as[d.structArg]
+		if u, ok := sa.(*ast.UnaryExpr); ok && u.Op == token.AND {
+			sa = u.X
+		}
+		if st, ok := sa.(*ast.StarExpr); ok {
+			sa = st.X
+		}
+		id, ok := sa.(*ast.Ident)
+		if _, shadow := e[f.recv]; !ok || id.Name != f.recv || shadow {
+			return val{}, f.errf(n, "call of %s: the %s argument is not the receiver", key, d.recvStruct)
+		}
+		var pre []string
+		for _, fn := range d.fields {
+			fv, err := f.recvField(n, fn)
+			if err != nil {
+				return val{}, err
+			}
+			pre = append(pre, fv.s)
+		}
+		rest := append(append([]ast.Expr{}, as[:d.structArg]...), as[d.structArg+1:]...)
+		ss, err := f.args(n, q.name+"."+key, d.params, rest, e)
+		if err != nil {
+			return val{}, err
+		}
+		return val{s: app(d.Name, append(pre, ss...)), t: d.ret, fresh: d.ret.k == kList}, nil
+	}
 	if len(d.fields) != 0 {
 		// s.Method(..) inside another method of the same struct: pass the receiver fields it uses
 		if recv != nil || q != f.p || f.recvStruct == "" || !strings.HasPrefix(key, f.recvStruct+".") {
@@ -1423,7 +1539,21 @@ func (f *fctx) builtin(x *ast.CallExpr, name string, e env) (val, bool, error) {
 // composite literal of a vector, box or slice type (implied = element type of an enclosing slice literal)
 func (f *fctx) composite(x *ast.CompositeLit, implied *typ, e env) (val, error) {
 	var t typ
-	if x.Type != nil {
+	if at, ok := x.Type.(*ast.ArrayType); ok && at.Len != nil {
+		if _, dots := at.Len.(*ast.Ellipsis); dots {
+			// [...]T{a, b, c}: the length is the number of elements
+			el, err := f.goType(at.Elt)
+			if err != nil {
+				return val{}, f.errf(x, "%v", err)
+			}
+			if len(x.Elts) == 0 {
+				return val{}, f.errf(x, "empty array literal")
+			}
+			t = arrayType(el, len(x.Elts))
+		}
+	}
+	if t.k == kList {
+	} else if x.Type != nil {
 		var err error
 		if t, err = f.goType(x.Type); err != nil {
 			return val{}, f.errf(x, "%v", err)
@@ -1497,6 +1627,9 @@ func (f *fctx) composite(x *ast.CompositeLit, implied *typ, e env) (val, error) 
 		return f.elemString(el, v)
 	}
 	if t.k == kList {
+		if t.n > 0 && len(elts) != t.n {
+			return val{}, f.errf(x, "%s literal with %d elements (partial literals are not modelled)", t.goName(), len(elts))
+		}
 		var es []string
 		for _, el := range elts {
 			s, err := elem(el, t.args[0])
@@ -1553,14 +1686,17 @@ func (f *fctx) expr(e0 ast.Expr, e env) (val, error) {
 		return val{s: s, t: tT, konst: true, rat: r, isInt: x.Kind == token.INT}, nil
 	case *ast.Ident:
 		if b, ok := e[x.Name]; ok {
+			if b.kval != nil {
+				return *b.kval, nil
+			}
 			if b.fields != nil {
 				return val{}, f.errf(x, "struct %s used as a value", x.Name)
 			}
 			if b.zero {
 				z, _ := b.t.zero()
-				return val{s: z, t: b.t, fresh: b.fresh}, nil
+				return val{s: z, t: b.t, fresh: b.fresh || b.t.n > 0}, nil
 			}
-			return val{s: b.coq, t: b.t, bb: b.bb, fresh: b.fresh}, nil
+			return val{s: b.coq, t: b.t, bb: b.bb, fresh: b.fresh || b.t.n > 0}, nil
 		}
 		if x.Name == f.recv && f.recv != "" {
 			return val{}, f.errf(x, "receiver %s used as a value", x.Name)
@@ -1728,7 +1864,12 @@ func (f *fctx) expr(e0 ast.Expr, e env) (val, error) {
 func (f *fctx) bindParams(fl *ast.FieldList, e env) ([]Param, []typ, error) {
 	var ps []Param
 	var ts []typ
+	idx := 0
 	for _, p := range fl.List {
+		if fl == f.skipList && len(p.Names) == 1 && idx == f.skipParam {
+			idx++
+			continue // the struct parameter that plays the receiver
+		}
 		t, err := f.goType(p.Type)
 		if err != nil {
 			return nil, nil, f.errf(p, "%v", err)
@@ -1737,6 +1878,10 @@ func (f *fctx) bindParams(fl *ast.FieldList, e env) ([]Param, []typ, error) {
 			return nil, nil, f.errf(p, "unnamed parameter")
 		}
 		for _, nm := range p.Names {
+			idx++
+			if fl == f.skipList && idx-1 == f.skipParam {
+				continue
+			}
 			c := coqIdent(nm.Name)
 			b := &binding{coq: c, t: t}
 			ps = append(ps, Param{c, t.coq()})
@@ -1983,6 +2128,7 @@ func (f *fctx) ctorReturn(s *ast.ReturnStmt, e env, want typ, ind string) (strin
 type tail struct {
 	vars []string
 	loop bool // the body of a loop: `continue` yields the variables
+	proc bool // the top level of the body of a procedure / mutator: a bare `return` as its last statement ends it
 }
 
 // desugar rewrites `switch {case c1: ..; default: ..}` and `switch x {case a, b: ..}` into
@@ -1992,13 +2138,20 @@ func (f *fctx) desugar(b *ast.BlockStmt) error {
 	if b == nil {
 		return nil
 	}
-	for i, st := range b.List {
+	var out []ast.Stmt
+	for _, st := range b.List {
 		n, err := f.desugarStmt(st)
 		if err != nil {
 			return err
 		}
-		b.List[i] = n
+		if blk, ok := n.(*ast.BlockStmt); ok && blk.Lbrace == token.NoPos {
+			// a statement that desugars into several (the tag of a switch bound to a temporary first)
+			out = append(out, blk.List...)
+			continue
+		}
+		out = append(out, n)
 	}
+	b.List = out
 	return nil
 }
 
@@ -2022,16 +2175,29 @@ func (f *fctx) desugarStmt(st ast.Stmt) (ast.Stmt, error) {
 		return x, f.desugar(x.Body)
 	case *ast.RangeStmt:
 		return x, f.desugar(x.Body)
-	case *ast.SwitchStmt:
-		if x.Init != nil {
-			return nil, f.errf(x, "switch statement with an init clause")
+	case *ast.IncDecStmt:
+		// x++ / x-- on a variable: x += 1 / x -= 1
+		tok := token.ADD_ASSIGN
+		if x.Tok == token.DEC {
+			tok = token.SUB_ASSIGN
 		}
+		return &ast.AssignStmt{Lhs: []ast.Expr{x.X}, TokPos: x.TokPos, Tok: tok,
+			Rhs: []ast.Expr{&ast.BasicLit{ValuePos: x.TokPos, Kind: token.INT, Value: "1"}}}, nil
+	case *ast.SwitchStmt:
+		var pre []ast.Stmt
 		if x.Tag != nil {
-			// the tag is compared with each case value: it must be a variable or a field (no effects, cheap)
+			// the tag is evaluated once and compared with each case value: anything but a variable or a
+			// field is bound to a temporary first
 			switch x.Tag.(type) {
 			case *ast.Ident, *ast.SelectorExpr:
 			default:
-				return nil, f.errf(x, "switch on an expression that is not a variable or a field")
+				if x.Init != nil {
+					return nil, f.errf(x, "switch with an init clause and a tag that is not a variable or a field")
+				}
+				f.ntmp++
+				tmp := &ast.Ident{NamePos: x.Tag.Pos(), Name: fmt.Sprintf("switchTag%d", f.ntmp)}
+				pre = append(pre, &ast.AssignStmt{Lhs: []ast.Expr{tmp}, TokPos: x.Tag.Pos(), Tok: token.DEFINE, Rhs: []ast.Expr{x.Tag}})
+				x.Tag = tmp
 			}
 		}
 		var def *ast.CaseClause
@@ -2090,7 +2256,18 @@ func (f *fctx) desugarStmt(st ast.Stmt) (ast.Stmt, error) {
 			tailStmt = &ast.IfStmt{If: cc.Pos(), Cond: cond, Body: &ast.BlockStmt{Lbrace: cc.Colon, List: cc.Body, Rbrace: cc.End()}, Else: tailStmt}
 		}
 		if tailStmt == nil {
-			return &ast.EmptyStmt{Semicolon: x.Pos()}, nil
+			tailStmt = &ast.EmptyStmt{Semicolon: x.Pos()}
+		}
+		if x.Init != nil {
+			// switch x := e; .. {..}: x is in scope of the cases only - the same as `if x := e; c {..} else ..`
+			ifs, ok := tailStmt.(*ast.IfStmt)
+			if !ok {
+				return nil, f.errf(x, "switch with an init clause and no case")
+			}
+			ifs.Init = x.Init
+		}
+		if pre != nil {
+			return &ast.BlockStmt{List: append(pre, tailStmt)}, nil // Lbrace == NoPos: spliced by desugar
 		}
 		return tailStmt, nil
 	}
@@ -2334,7 +2511,7 @@ func (f *fctx) lookupVar(n ast.Node, e env, key string) (*binding, error) {
 		return fb, nil
 	}
 	b, ok := e[key]
-	if !ok || b.fields != nil || b.t.iface || strings.ContainsAny(key, "[(*") {
+	if !ok || b.fields != nil || b.t.iface || b.kval != nil || strings.ContainsAny(key, "[(*") {
 		return nil, f.errf(n, "assignment to %s: not a plain local variable", key)
 	}
 	if b.capt {
@@ -2418,9 +2595,173 @@ func mentions(x ast.Expr, vars []string) bool {
 	return found
 }
 
+// does the statement mention the identifier?
+func mentions2(st ast.Stmt, name string) bool {
+	found := false
+	ast.Inspect(st, func(n ast.Node) bool {
+		if id, ok := n.(*ast.Ident); ok && id.Name == name {
+			found = true
+		}
+		return true
+	})
+	return found
+}
+
+// the statements change the slice variable `name` by index assignments only (v[k] = e, in-place
+// procedures): its length is invariant
+func onlyIndexAssigned(list []ast.Stmt, name string) bool {
+	ok := true
+	for _, st := range list {
+		ast.Inspect(st, func(n ast.Node) bool {
+			switch x := n.(type) {
+			case *ast.AssignStmt:
+				for _, l := range x.Lhs {
+					if id, isId := l.(*ast.Ident); isId && id.Name == name {
+						ok = false
+					}
+				}
+			case *ast.RangeStmt:
+				for _, l := range []ast.Expr{x.Key, x.Value} {
+					if id, isId := l.(*ast.Ident); isId && id.Name == name {
+						ok = false
+					}
+				}
+			case *ast.DeclStmt:
+				if gd, isGd := x.Decl.(*ast.GenDecl); isGd {
+					for _, sp := range gd.Specs {
+						if vs, isVs := sp.(*ast.ValueSpec); isVs {
+							for _, nm := range vs.Names {
+								if nm.Name == name {
+									ok = false
+								}
+							}
+						}
+					}
+				}
+			case *ast.UnaryExpr:
+				if id, isId := x.X.(*ast.Ident); isId && x.Op == token.AND && id.Name == name {
+					ok = false // &v escapes
+				}
+			}
+			return true
+		})
+	}
+	return ok
+}
+
+// how many statements of the function (re)define or assign the variable or field `name` ("x", "s.f"),
+// index assignments and in-place procedures included
+func countAssignments(root ast.Node, name string) int {
+	n := 0
+	base := func(x ast.Expr) string {
+		for {
+			switch y := x.(type) {
+			case *ast.IndexExpr:
+				x = y.X
+				continue
+			case *ast.ParenExpr:
+				x = y.X
+				continue
+			case *ast.StarExpr:
+				x = y.X
+				continue
+			}
+			return exprString(x)
+		}
+	}
+	ast.Inspect(root, func(nd ast.Node) bool {
+		switch x := nd.(type) {
+		case *ast.AssignStmt:
+			for _, l := range x.Lhs {
+				if base(l) == name {
+					n++
+				}
+			}
+		case *ast.IncDecStmt:
+			if base(x.X) == name {
+				n++
+			}
+		case *ast.RangeStmt:
+			for _, l := range []ast.Expr{x.Key, x.Value} {
+				if l != nil && base(l) == name {
+					n++
+				}
+			}
+		case *ast.DeclStmt:
+			if gd, ok := x.Decl.(*ast.GenDecl); ok {
+				for _, sp := range gd.Specs {
+					if vs, ok := sp.(*ast.ValueSpec); ok {
+						for _, nm := range vs.Names {
+							if nm.Name == name {
+								n++
+							}
+						}
+					}
+				}
+			}
+		case *ast.CallExpr:
+			// a slice passed to a function of this package may be written by it; &x escapes
+			if id, ok := x.Fun.(*ast.Ident); !ok || (id.Name != "len" && id.Name != "cap") {
+				for _, a := range x.Args {
+					if base(a) == name {
+						n++
+					}
+				}
+			}
+		case *ast.UnaryExpr:
+			if x.Op == token.AND && base(x.X) == name {
+				n++
+			}
+		}
+		return true
+	})
+	return n
+}
+
+// lenOperand: the loop bound is the length of a slice that the loop cannot change - `len(xs)` itself, or a
+// local `n` that was defined once as `n := len(xs)` where xs is never assigned in the function (a parameter,
+// a receiver field).  Then `for i := 0; i < bound; i++` is a loop over xs.
+func (f *fctx) lenOperand(limit ast.Expr, e env, body []ast.Stmt, vars []string) *val {
+	isLen := func(x ast.Expr) (ast.Expr, bool) {
+		c, ok := x.(*ast.CallExpr)
+		if !ok || len(c.Args) != 1 {
+			return nil, false
+		}
+		id, ok := c.Fun.(*ast.Ident)
+		if !ok || id.Name != "len" {
+			return nil, false
+		}
+		if _, shadow := e["len"]; shadow {
+			return nil, false
+		}
+		return c.Args[0], true
+	}
+	if arg, ok := isLen(limit); ok {
+		// the operand may be a slice the body writes by index (its length is invariant)
+		if mentions(arg, vars) {
+			id, isId := arg.(*ast.Ident)
+			if !isId || !onlyIndexAssigned(body, id.Name) {
+				return nil
+			}
+		}
+		v, err := f.expr(arg, e)
+		if err != nil || v.t.k != kList {
+			return nil
+		}
+		return &v
+	}
+	if id, ok := limit.(*ast.Ident); ok {
+		if b := e[id.Name]; b != nil && b.lenOf != nil && f.body != nil &&
+			countAssignments(f.body, id.Name) == 1 && countAssignments(f.body, b.lenSrc) == 0 {
+			return b.lenOf
+		}
+	}
+	return nil
+}
+
 // loop translates
 //
-//	for _, x := range xs {..}   -> fold_left (fun st x => ..) xs st0
+//	for _, x := range xs {..}   -> range_loop xs 0 (fun _ x st => ..) st0
 //	for i := range xs {..}      -> range_loop xs 0 (fun i _ st => ..) st0
 //	for i, x := range xs {..}   -> range_loop xs 0 (fun i x st => ..) st0
 //	for i := 0; i < n; i++ {..} -> count_loop (Z.to_nat n) 0 (fun i st => ..) st0
@@ -2433,7 +2774,7 @@ func (f *fctx) loop(st ast.Stmt, rest []ast.Stmt, e env, tl *tail, ind string) (
 	loopVars := map[string]bool{}
 	switch s := st.(type) {
 	case *ast.RangeStmt:
-		if s.Tok != token.DEFINE {
+		if s.Tok != token.DEFINE && (s.Key != nil || s.Value != nil) {
 			return "", f.errf(s, "range loop without := variables")
 		}
 		for _, l := range []ast.Expr{s.Key, s.Value} {
@@ -2471,83 +2812,153 @@ func (f *fctx) loop(st ast.Stmt, rest []ast.Stmt, e env, tl *tail, ind string) (
 		b, _ := f.lookupVar(st, inner, v)
 		b.zero = false
 	}
-	var head, lam string
+	var head, pre string
 	switch s := st.(type) {
 	case *ast.RangeStmt:
 		xs, err := f.expr(s.X, e)
 		if err != nil {
 			return "", err
 		}
+		key, _ := s.Key.(*ast.Ident)
+		val, _ := s.Value.(*ast.Ident)
+		if xi, isInt := asInt(xs); isInt && xs.t.k != kList {
+			// for i := range n (Go 1.22): n iterations, i = 0 .. n-1; n is evaluated once
+			if val != nil || mentions(s.X, vars) {
+				return "", f.errf(s, "unsupported range over an integer")
+			}
+			iname := "_"
+			if key != nil && key.Name != "_" {
+				iname = coqIdent(key.Name)
+				inner[key.Name] = &binding{coq: iname, t: tInt}
+			}
+			head = "count_loop (Z.to_nat " + xi.s + ") 0%Z (fun " + iname + " " + pattern(names) + " =>"
+			break
+		}
 		if xs.t.k != kList {
 			return "", f.errf(s, "range over %s", xs.t.goName())
 		}
-		key, _ := s.Key.(*ast.Ident)
-		val, _ := s.Value.(*ast.Ident)
 		if key == nil || (key.Name == "_" && (val == nil || val.Name == "_")) {
 			return "", f.errf(s, "range loop without variables")
 		}
-		if val != nil && val.Name != "_" && mentions(s.X, vars) {
-			return "", f.errf(s, "range loop with a value variable over a slice the body modifies")
-		}
-		xname := "_"
-		if val != nil && val.Name != "_" {
-			xname = coqIdent(val.Name)
-			ev := elemVal(xname, xs.t.args[0])
-			inner[val.Name] = &binding{coq: ev.s, t: ev.t, bb: ev.bb}
-		}
-		if key.Name == "_" {
-			head = "fold_left (fun " + pattern(names) + " " + xname + " =>"
-			lam = xs.s
-		} else {
-			iname := coqIdent(key.Name)
+		iname, xname := "_", "_"
+		if key.Name != "_" {
+			iname = coqIdent(key.Name)
 			inner[key.Name] = &binding{coq: iname, t: tInt}
-			head = "range_loop " + xs.s + " 0%Z (fun " + iname + " " + xname + " " + pattern(names) + " =>"
 		}
+		if val != nil && val.Name != "_" {
+			if mentions(s.X, vars) && xs.t.n == 0 {
+				// for i, x := range v { .. v[k] = e .. }: the range expression is evaluated once (so the number of
+				// iterations is fixed), but x is v[i] as it is when iteration i starts (a slice shares its array).
+				// Modelled when v is a local slice whose length the body cannot change (index assignments only).
+				id, isId := s.X.(*ast.Ident)
+				if !isId || !onlyIndexAssigned(body, id.Name) {
+					return "", f.errf(s, "range loop with a value variable over a slice the body re-assigns")
+				}
+				vb, err := f.lookupVar(s, inner, id.Name)
+				if err != nil {
+					return "", err
+				}
+				z, okz := xs.t.args[0].zero()
+				if !okz {
+					return "", f.errf(s, "range over a slice of %s", xs.t.args[0].goName())
+				}
+				if iname == "_" {
+					iname = "rangeIndex_"
+				}
+				ev := elemVal(fmt.Sprintf("(nth (Z.to_nat %s) %s %s)", iname, vb.coq, z), xs.t.args[0])
+				xc := coqIdent(val.Name)
+				if ev.bb != "" {
+					return "", f.errf(s, "range with a value variable over a slice of SDFs the body modifies")
+				}
+				pre = ind + "      let " + xc + " := " + ev.s + " in\n"
+				inner[val.Name] = &binding{coq: xc, t: ev.t}
+			} else {
+				xname = coqIdent(val.Name)
+				ev := elemVal(xname, xs.t.args[0])
+				inner[val.Name] = &binding{coq: ev.s, t: ev.t, bb: ev.bb}
+			}
+		}
+		// one normal form for every loop over a slice: range_loop (the body may use the index, the element, both)
+		head = "range_loop " + xs.s + " 0%Z (fun " + iname + " " + xname + " " + pattern(names) + " =>"
 	case *ast.ForStmt:
-		// for i := 0; i < n; i++
+		// for i := a; i < n; i++   (also `n > i`, `i += 1`, `i = i + 1`)
 		as, ok := s.Init.(*ast.AssignStmt)
 		var iv *ast.Ident
 		if ok && as.Tok == token.DEFINE && len(as.Lhs) == 1 && len(as.Rhs) == 1 {
 			iv, _ = as.Lhs[0].(*ast.Ident)
 		}
-		lit, _ := func() (*ast.BasicLit, bool) {
-			if iv == nil {
-				return nil, false
+		if iv == nil || iv.Name == "_" {
+			return "", f.errf(s, "unsupported for statement (only `for i := a; i < n; i++`)")
+		}
+		isIv := func(x ast.Expr) bool { id, ok := x.(*ast.Ident); return ok && id.Name == iv.Name }
+		var limit ast.Expr
+		if cond, _ := s.Cond.(*ast.BinaryExpr); cond != nil {
+			switch {
+			case cond.Op == token.LSS && isIv(cond.X):
+				limit = cond.Y
+			case cond.Op == token.GTR && isIv(cond.Y):
+				limit = cond.X
 			}
-			l, ok := as.Rhs[0].(*ast.BasicLit)
-			return l, ok
-		}()
-		cond, _ := s.Cond.(*ast.BinaryExpr)
-		post, _ := s.Post.(*ast.IncDecStmt)
-		okForm := iv != nil && iv.Name != "_" && lit != nil && lit.Kind == token.INT && lit.Value == "0" &&
-			cond != nil && cond.Op == token.LSS && post != nil && post.Tok == token.INC
-		if okForm {
-			ci, ok1 := cond.X.(*ast.Ident)
-			pi, ok2 := post.X.(*ast.Ident)
-			okForm = ok1 && ok2 && ci.Name == iv.Name && pi.Name == iv.Name
 		}
-		if !okForm {
-			return "", f.errf(s, "unsupported for statement (only `for i := 0; i < n; i++`)")
+		okPost := false
+		switch post := s.Post.(type) {
+		case *ast.IncDecStmt:
+			okPost = post.Tok == token.INC && isIv(post.X)
+		case *ast.AssignStmt:
+			if len(post.Lhs) == 1 && len(post.Rhs) == 1 && isIv(post.Lhs[0]) {
+				one := func(x ast.Expr) bool { l, ok := x.(*ast.BasicLit); return ok && l.Kind == token.INT && l.Value == "1" }
+				switch post.Tok {
+				case token.ADD_ASSIGN:
+					okPost = one(post.Rhs[0])
+				case token.ASSIGN:
+					be, _ := post.Rhs[0].(*ast.BinaryExpr)
+					okPost = be != nil && be.Op == token.ADD && ((isIv(be.X) && one(be.Y)) || (one(be.X) && isIv(be.Y)))
+				}
+			}
 		}
-		if mentions(cond.Y, append([]string{iv.Name}, vars...)) {
-			return "", f.errf(s, "the loop bound depends on a variable the loop assigns")
-		}
-		bound, err := f.expr(cond.Y, e)
-		if err != nil {
-			return "", err
-		}
-		bound, isInt := asInt(bound)
-		if !isInt {
-			return "", f.errf(s, "loop bound of type %s", bound.t.goName())
+		if limit == nil || !okPost {
+			return "", f.errf(s, "unsupported for statement (only `for i := a; i < n; i++`)")
 		}
 		for _, v := range vars {
 			if v == iv.Name {
 				return "", f.errf(s, "the loop body assigns the loop counter")
 			}
 		}
+		if mentions(as.Rhs[0], append([]string{iv.Name}, vars...)) {
+			return "", f.errf(s, "the start of the loop counter depends on a variable the loop assigns")
+		}
+		start, err := f.expr(as.Rhs[0], e)
+		if err != nil {
+			return "", err
+		}
+		start, isInt := asInt(start)
+		if !isInt {
+			return "", f.errf(s, "loop counter of type %s", start.t.goName())
+		}
+		from0 := start.konst && start.rat != nil && start.rat.Sign() == 0
 		iname := coqIdent(iv.Name)
 		inner[iv.Name] = &binding{coq: iname, t: tInt}
-		head = "count_loop (Z.to_nat " + bound.s + ") 0%Z (fun " + iname + " " + pattern(names) + " =>"
+		// i < len(xs), or i < n where n := len(xs) and neither changed since: a loop over the slice xs
+		if over := f.lenOperand(limit, e, body, vars); over != nil && from0 {
+			head = "range_loop " + over.s + " 0%Z (fun " + iname + " _ " + pattern(names) + " =>"
+			break
+		}
+		if mentions(limit, append([]string{iv.Name}, vars...)) {
+			return "", f.errf(s, "the loop bound depends on a variable the loop assigns")
+		}
+		bound, err := f.expr(limit, e)
+		if err != nil {
+			return "", err
+		}
+		bound, isInt = asInt(bound)
+		if !isInt {
+			return "", f.errf(s, "loop bound of type %s", bound.t.goName())
+		}
+		if from0 {
+			head = "count_loop (Z.to_nat " + bound.s + ") 0%Z (fun " + iname + " " + pattern(names) + " =>"
+		} else {
+			head = "count_loop (Z.to_nat (Z.sub " + bound.s + " " + start.s + ")) " + start.s + " (fun " + iname + " " + pattern(names) + " =>"
+		}
 	}
 	b, err := f.stmts(body, inner, &tail{vars: vars, loop: true}, ind+"      ")
 	if err != nil {
@@ -2557,11 +2968,7 @@ func (f *fctx) loop(st ast.Stmt, rest []ast.Stmt, e env, tl *tail, ind string) (
 		ob, _ := f.lookupVar(st, e, v)
 		ob.zero = false
 	}
-	call := ind + "  " + head + "\n" + b + ")\n" + ind + "    "
-	if lam != "" {
-		call += lam + " "
-	}
-	call += tuple(init)
+	call := ind + "  " + head + "\n" + pre + b + ")\n" + ind + "    " + tuple(init)
 	if len(rest) == 0 && tl != nil && sameVars(tl.vars, vars) {
 		return call, nil
 	}
@@ -2596,17 +3003,115 @@ func (f *fctx) stmts(list []ast.Stmt, e env, tl *tail, ind string) (string, erro
 
 	case *ast.DeclStmt:
 		gd, ok := s.Decl.(*ast.GenDecl)
-		if !ok || gd.Tok != token.VAR {
+		if !ok || (gd.Tok != token.VAR && gd.Tok != token.CONST) {
 			return "", f.errf(s, "unsupported declaration")
 		}
+		var lets strings.Builder
 		for _, sp := range gd.Specs {
 			vs := sp.(*ast.ValueSpec)
-			if len(vs.Values) != 0 || vs.Type == nil {
-				return "", f.errf(s, "var declaration with initial values (use :=)")
+			var t typ
+			if vs.Type != nil {
+				var err error
+				if t, err = f.goType(vs.Type); err != nil {
+					return "", f.errf(s, "%v", err)
+				}
 			}
-			t, err := f.goType(vs.Type)
-			if err != nil {
-				return "", f.errf(s, "%v", err)
+			if gd.Tok == token.CONST {
+				// const k = e / const k float64 = e: the value stands for the name (as the compiler does)
+				if len(vs.Values) != len(vs.Names) {
+					return "", f.errf(s, "constant declaration without a value for every name (iota-style)")
+				}
+				for i, n := range vs.Names {
+					v, err := f.expr(vs.Values[i], e)
+					if err != nil {
+						return "", err
+					}
+					if !v.konst || v.t.k != kT {
+						return "", f.errf(s, "local constant %s is not a numeric constant", n.Name)
+					}
+					if vs.Type != nil {
+						switch t.k {
+						case kT:
+							v.isInt = false
+						case kInt:
+							if v, ok = asInt(v); !ok {
+								return "", f.errf(s, "local constant %s is not an integer", n.Name)
+							}
+						default:
+							return "", f.errf(s, "local constant of type %s", t.goName())
+						}
+					}
+					kv := v
+					e[n.Name] = &binding{coq: coqIdent(n.Name), t: v.t, kval: &kv}
+				}
+				continue
+			}
+			if len(vs.Values) != 0 {
+				// var x T = e / var x = e / var a, b = e1, e2: declarations with initial values
+				if len(vs.Values) != len(vs.Names) {
+					return "", f.errf(s, "var declaration initialised by a multi-valued expression")
+				}
+				var vals []val
+				for _, ex := range vs.Values {
+					var v val
+					var err error
+					if cl, ok := ex.(*ast.CompositeLit); ok && cl.Type == nil && vs.Type != nil {
+						v, err = f.composite(cl, &t, e)
+					} else {
+						v, err = f.expr(ex, e)
+					}
+					if err != nil {
+						return "", err
+					}
+					vals = append(vals, v)
+				}
+				var lnames, lvals []string
+				newb := map[string]*binding{}
+				for i, n := range vs.Names {
+					v := vals[i]
+					if vs.Type != nil {
+						switch {
+						case t.k == kInt:
+							v, _ = asInt(v)
+						case t.k == kT && v.t.k == kT:
+							v.isInt = false // var x float64 = 1 is a float64
+						}
+						if !v.t.eq(t) {
+							return "", f.errf(s, "var %s %s initialised with %s", n.Name, t.goName(), v.t.goName())
+						}
+					} else if v.konst && v.isInt {
+						v, _ = asInt(v) // var x = 0 declares an int
+					}
+					if v.t.k == kList && !v.fresh {
+						return "", f.errf(s, "assignment of a slice that another variable refers to (aliasing is not modelled)")
+					}
+					if v.t.k == kFn && !v.t.iface {
+						return "", f.errf(s, "var declaration of type %s", v.t.goName())
+					}
+					if n.Name == "_" {
+						continue
+					}
+					b := &binding{coq: coqIdent(n.Name), t: v.t, bb: v.bb, fresh: v.fresh}
+					if v.t.iface {
+						b.coq = v.s // an SDF value is two names: an alias
+					} else {
+						lnames, lvals = append(lnames, b.coq), append(lvals, v.s)
+					}
+					newb[n.Name] = b
+				}
+				// all initial values are evaluated before any of the names is in scope
+				for k, b := range newb {
+					e[k] = b
+				}
+				if len(lnames) == 1 {
+					lets.WriteString(ind + "let " + lnames[0] + " := " + lvals[0] + " in\n")
+				} else if len(lnames) > 1 {
+					lets.WriteString(ind + "let '(" + strings.Join(lnames, ", ") + ") := (" + strings.Join(lvals, ", ") + ") in\n")
+				}
+				continue
+			}
+			if vs.Type == nil {
+				return "", f.errf(s, "var declaration without a type")
 			}
 			if _, ok := t.zero(); !ok || t.iface || t.k == kFn {
 				return "", f.errf(s, "var declaration of type %s", t.goName())
@@ -2615,7 +3120,11 @@ func (f *fctx) stmts(list []ast.Stmt, e env, tl *tail, ind string) (string, erro
 				e[n.Name] = &binding{coq: coqIdent(n.Name), t: t, zero: true, fresh: true}
 			}
 		}
-		return f.stmts(rest, e, tl, ind)
+		r, err := f.stmts(rest, e, tl, ind)
+		if err != nil {
+			return "", err
+		}
+		return lets.String() + r, nil
 
 	case *ast.ForStmt, *ast.RangeStmt:
 		return f.loop(st, rest, e, tl, ind)
@@ -2668,6 +3177,54 @@ func (f *fctx) stmts(list []ast.Stmt, e env, tl *tail, ind string) (string, erro
 		return ind + "let " + pattern(names) + " := " + callStr + " in\n" + r, nil
 
 	case *ast.AssignStmt:
+		if len(s.Lhs) == 2 && len(s.Rhs) == 1 && s.Tok == token.DEFINE && len(f.results) == 1 && f.results[0].k == kObjOpt && tl == nil {
+			// x, err := Ctor(..); if err != nil { return nil, err }; ..  (inside a constructor): the callee's
+			// result decides - None is passed on, otherwise x is the object it built
+			if c, isCtor := f.ctorCall(s.Rhs[0], e); isCtor {
+				xid, ok1 := s.Lhs[0].(*ast.Ident)
+				eid, ok2 := s.Lhs[1].(*ast.Ident)
+				if !ok1 || !ok2 || xid.Name == "_" || eid.Name == "_" || len(rest) == 0 {
+					return "", f.errf(s, "unsupported use of a constructor with an error result")
+				}
+				ifs, ok := rest[0].(*ast.IfStmt)
+				okIf := ok && ifs.Init == nil && ifs.Else == nil && len(ifs.Body.List) == 1
+				if okIf {
+					be, isBin := ifs.Cond.(*ast.BinaryExpr)
+					okIf = isBin && be.Op == token.NEQ
+					if okIf {
+						l, isL := be.X.(*ast.Ident)
+						okIf = isL && l.Name == eid.Name && isNil(be.Y, e)
+					}
+				}
+				if okIf {
+					ret, isRet := ifs.Body.List[0].(*ast.ReturnStmt)
+					okIf = isRet && len(ret.Results) == 2 && isNil(ret.Results[0], e) && !isNil(ret.Results[1], e)
+				}
+				if !okIf {
+					return "", f.errf(s, "a constructor's error result must be checked by `if err != nil { return nil, .. }` straight away")
+				}
+				for _, later := range rest[1:] {
+					if mentions2(later, eid.Name) {
+						return "", f.errf(later, "the error variable %s is used after it was found nil", eid.Name)
+					}
+				}
+				v, err := f.callDef(c, f.p, c.Fun.(*ast.Ident).Name, nil, c.Args, e)
+				if err != nil {
+					return "", err
+				}
+				if v.t.k != kObjOpt {
+					return "", f.errf(s, "assignment of %s to 2 variables", v.t.goName())
+				}
+				xc := coqIdent(xid.Name)
+				inner := e.clone()
+				inner[xid.Name] = &binding{coq: xc, t: ifaceType(v.t.args[0]), bb: xc + "_bb"}
+				r, err := f.stmts(rest[1:], inner, tl, ind+"    ")
+				if err != nil {
+					return "", err
+				}
+				return ind + "match " + v.s + " with\n" + ind + "| None => None\n" + ind + "| Some (" + xc + ", " + xc + "_bb) =>\n" + r + "\n" + ind + "end", nil
+			}
+		}
 		if len(s.Lhs) > 1 && len(s.Rhs) == 1 {
 			// a, b := f(..): the results of a translated function
 			if s.Tok != token.ASSIGN && s.Tok != token.DEFINE {
@@ -2800,7 +3357,7 @@ func (f *fctx) stmts(list []ast.Stmt, e env, tl *tail, ind string) (string, erro
 			if b.t.k != kList {
 				return "", f.errf(s, "index assignment into %s", b.t.goName())
 			}
-			if !b.fresh {
+			if !b.fresh && b.t.n == 0 {
 				return "", f.errf(s, "index assignment into the slice %s, which another variable may refer to", id.Name)
 			}
 			var idx string
@@ -2886,7 +3443,18 @@ func (f *fctx) stmts(list []ast.Stmt, e env, tl *tail, ind string) (string, erro
 			if v.t.k == kList && !v.fresh {
 				return "", f.errf(s, "assignment of a slice that another variable refers to (aliasing is not modelled)")
 			}
-			e[id.Name] = &binding{coq: coqIdent(id.Name), t: v.t, bb: v.bb, fresh: v.fresh}
+			nb := &binding{coq: coqIdent(id.Name), t: v.t, bb: v.bb, fresh: v.fresh}
+			if c, ok := s.Rhs[0].(*ast.CallExpr); ok && len(c.Args) == 1 {
+				if fid, ok := c.Fun.(*ast.Ident); ok && fid.Name == "len" && e["len"] == nil {
+					switch c.Args[0].(type) {
+					case *ast.Ident, *ast.SelectorExpr:
+						if lv, err := f.expr(c.Args[0], e); err == nil && lv.t.k == kList {
+							nb.lenOf, nb.lenSrc = &lv, exprString(c.Args[0])
+						}
+					}
+				}
+			}
+			e[id.Name] = nb
 		case s.Tok == token.ASSIGN || opAssign[s.Tok] != 0:
 			b, ok := e[id.Name]
 			if !ok || b.fields != nil {
@@ -2932,6 +3500,9 @@ func (f *fctx) stmts(list []ast.Stmt, e env, tl *tail, ind string) (string, erro
 		return ind + "let " + e[id.Name].coq + " := " + v.s + " in\n" + r, nil
 
 	case *ast.ReturnStmt:
+		if tl != nil && tl.proc && len(s.Results) == 0 && len(rest) == 0 {
+			return f.stmts(nil, e, tl, ind) // the trailing `return` of a procedure
+		}
 		if tl != nil {
 			return "", f.errf(s, "return inside a block that can also fall through")
 		}
@@ -3225,7 +3796,7 @@ func (g *gen) constant(p *pkg, name string) (val, error) {
 	}
 	g.busy[id] = true
 	defer delete(g.busy, id)
-	f := &fctx{g: g, p: p, file: p.fileOf[name], key: name}
+	f := &fctx{g: g, p: p, file: p.fileOf[name], key: name, skipParam: -1}
 	v, err := f.expr(ex, env{})
 	if err != nil {
 		return val{}, err
@@ -3235,7 +3806,7 @@ func (g *gen) constant(p *pkg, name string) (val, error) {
 	}
 	pos := g.fset.Position(ex.Pos())
 	d := &Def{Pkg: p.name, Key: name, Name: defName(p.name, name), Pos: fmt.Sprintf("%s:%d", f.file.rel, pos.Line),
-		Ret: "T O", ret: tT, isConst: true, rat: v.rat}
+		Ret: "T O", ret: tT, isConst: true, rat: v.rat, structArg: -1}
 	d.text = fmt.Sprintf("  (* %s: const %s *)\n  Definition %s : T O := %s.\n", d.Pos, name, d.Name, v.s)
 	g.defs[id] = d
 	g.order = append(g.order, d)
@@ -3256,7 +3827,7 @@ func (g *gen) translate(p *pkg, key string) (*Def, error) {
 	}
 	g.busy[id] = true
 	defer delete(g.busy, id)
-	f := &fctx{g: g, p: p, file: p.fileOf[key], key: key, used: map[string]typ{}}
+	f := &fctx{g: g, p: p, file: p.fileOf[key], key: key, used: map[string]typ{}, skipParam: -1}
 	if fd.Body == nil {
 		return nil, f.errf(fd, "no body")
 	}
@@ -3297,6 +3868,38 @@ func (g *gen) translate(p *pkg, key string) (*Def, error) {
 			return nil, f.errf(fd, "receiver type %s", rn)
 		}
 	}
+	if fd.Recv == nil {
+		// func helper(a *T, ..) with T a struct of this package: a is treated as the receiver of a method of T
+		idx, found, sname, pname := 0, -1, "", ""
+		for _, fl := range fd.Type.Params.List {
+			t := fl.Type
+			if st, ok := t.(*ast.StarExpr); ok {
+				t = st.X
+			}
+			id, isId := t.(*ast.Ident)
+			isStruct := isId && p.structs[id.Name] != nil
+			if isStruct {
+				if _, err := g.namedType(p, id.Name); err == nil {
+					isStruct = false // Box2, Box3, ...: types with a model of their own
+				}
+			}
+			if isStruct {
+				if len(fl.Names) != 1 || found >= 0 {
+					found = -2
+					break
+				}
+				found, sname, pname = idx, id.Name, fl.Names[0].Name
+			}
+			n := len(fl.Names)
+			if n == 0 {
+				n = 1
+			}
+			idx += n
+		}
+		if found >= 0 && pname != "_" {
+			f.skipParam, f.skipList, f.recvStruct, f.recv = found, fd.Type.Params, sname, pname
+		}
+	}
 	ps, ts, err := f.bindParams(fd.Type.Params, e)
 	if err != nil {
 		return nil, err
@@ -3330,7 +3933,7 @@ func (g *gen) translate(p *pkg, key string) (*Def, error) {
 		if len(rts) > 1 {
 			rt = typ{k: kTuple, args: rts}
 		}
-		procTail = &tail{vars: vars}
+		procTail = &tail{vars: vars, proc: true}
 	} else if fd.Type.Results == nil && fd.Recv == nil {
 		// a procedure: it must write into (exactly one of) its slice parameters; the definition
 		// returns the final value of that slice
@@ -3355,7 +3958,7 @@ func (g *gen) translate(p *pkg, key string) (*Def, error) {
 			return nil, f.errf(fd, "procedure assigning %s, which is not a slice parameter", vars[0])
 		}
 		b.fresh = true // aliasing is the caller's concern (checked at the call)
-		rt, procTail = b.t, &tail{vars: vars}
+		rt, procTail = b.t, &tail{vars: vars, proc: true}
 	} else if !isCtor {
 		// one result, or several (a tuple); named results are local variables holding their zero value
 		if fd.Type.Results == nil {
@@ -3413,6 +4016,7 @@ func (g *gen) translate(p *pkg, key string) (*Def, error) {
 		return nil, f.errf(fd, "method returning an SDF")
 	}
 	f.results = []typ{rt}
+	f.body = fd.Body
 	if err := f.desugar(fd.Body); err != nil {
 		return nil, err
 	}
@@ -3444,7 +4048,10 @@ func (g *gen) translate(p *pkg, key string) (*Def, error) {
 	}
 	pos := g.fset.Position(fd.Pos())
 	d := &Def{Pkg: p.name, Key: key, Name: defName(p.name, key), Pos: fmt.Sprintf("%s:%d", f.file.rel, pos.Line),
-		Params: params, Ret: rt.coq(), ret: rt, params: ptypes, fields: fields, mutates: mutates}
+		Params: params, Ret: rt.coq(), ret: rt, params: ptypes, fields: fields, mutates: mutates, structArg: f.skipParam}
+	if f.skipParam >= 0 {
+		d.recvStruct = f.recvStruct
+	}
 	goSig := "func " + key
 	if fd.Recv != nil {
 		rn, ptr := recvTypeName(fd)
@@ -3478,23 +4085,14 @@ type Result struct {
 func Translate(repo string) (*Result, error) {
 	g := &gen{fset: token.NewFileSet(), pkgs: map[string]*pkg{}, byPath: map[string]*pkg{}, defs: map[string]*Def{},
 		busy: map[string]bool{}}
-	for _, s := range []struct {
-		name, path string
-		files      []string
-	}{
-		{"v2", modPath + "vec/v2", []string{"vec/v2/v2.go"}},
-		{"v3", modPath + "vec/v3", []string{"vec/v3/v3.go"}},
-		{"p2", modPath + "vec/p2", []string{"vec/p2/p2.go"}},
-		{"v2i", modPath + "vec/v2i", []string{"vec/v2i/v2i.go"}},
-		{"v3i", modPath + "vec/v3i", []string{"vec/v3i/v3i.go"}},
-		{"conv", modPath + "vec/conv", []string{"vec/conv/conv.go"}},
-		{"sdf", modPath + "sdf", []string{"sdf/utils.go", "sdf/sdf2.go", "sdf/sdf3.go", "sdf/box2.go", "sdf/box3.go", "sdf/matrix.go", "sdf/line.go", "sdf/mesh2.go", "sdf/cams.go", "sdf/flange.go", "sdf/rack.go", "sdf/spiral.go"}},
+	for _, s := range []struct{ name, dir string }{
+		{"v2", "vec/v2"}, {"v3", "vec/v3"}, {"p2", "vec/p2"}, {"v2i", "vec/v2i"}, {"v3i", "vec/v3i"}, {"conv", "vec/conv"}, {"sdf", "sdf"},
 	} {
-		p, err := loadPkg(g.fset, repo, s.name, s.path, s.files...)
+		p, err := loadPkg(g.fset, repo, s.name, modPath+s.dir, s.dir)
 		if err != nil {
 			return nil, fmt.Errorf("sdfgen: %v", err)
 		}
-		g.pkgs[s.name], g.byPath[s.path] = p, p
+		g.pkgs[s.name], g.byPath[modPath+s.dir] = p, p
 	}
 	// sdf/matrix.go functions translated by harness/exprgen into Generated/MatrixExpr.v
 	g.externs = map[string]extern{
@@ -3517,8 +4115,8 @@ func Translate(repo string) (*Result, error) {
 		}
 	}
 	var b strings.Builder
-	b.WriteString("(* GENERATED by harness/sdfgen from vec/v2/v2.go, vec/v3/v3.go, vec/conv/conv.go, sdf/utils.go, sdf/sdf2.go, sdf/sdf3.go,\n")
-	b.WriteString("   sdf/box2.go, sdf/box3.go, sdf/matrix.go (MulBox) of the current source tree - do not edit.\n")
+	b.WriteString("(* GENERATED by harness/sdfgen from the packages vec/v2, vec/v3, vec/p2, vec/v2i, vec/v3i, vec/conv and sdf (every\n")
+	b.WriteString("   non-test .go file of each package directory) of the current source tree - do not edit.\n")
 	b.WriteString("   One definition per Go function, one `let` per Go statement; receiver fields s.f are the\n")
 	b.WriteString("   parameters s_f; a wrapped SDF is its Evaluate function (in constructors: plus its bounding box\n")
 	b.WriteString("   x_bb); a constructor returns None where Go returns nil / an error and otherwise\n")
@@ -3531,7 +4129,17 @@ func Translate(repo string) (*Result, error) {
 		b.WriteString(d.text)
 		b.WriteString("\n")
 	}
-	b.WriteString("End SdfExpr.\n")
+	b.WriteString("End SdfExpr.\n\n")
+	// every generated definition is registered for `autounfold with sdfgen` (Sdf/GenEqTac.v): the equality
+	// proofs look through helper functions, whatever they are called and wherever they were extracted
+	b.WriteString("Create HintDb sdfgen.\n#[export] Hint Unfold")
+	for i, d := range g.order {
+		if i%6 == 0 {
+			b.WriteString("\n ")
+		}
+		b.WriteString(" " + d.Name)
+	}
+	b.WriteString(" : sdfgen.\n")
 	return &Result{Defs: g.order, Text: []byte(b.String())}, nil
 }
 
